@@ -83,3 +83,14 @@ func init() {
 		assumptions: stdAssume,
 	})
 }
+
+func init() {
+	props["C12"] = &propDef{
+		id: "C12", title: "Memory held per interceptor is bounded regardless of stream length",
+		explanation: "Decides a necessary structural clause for every long-lived container of the library (every map, slice, list, sync.Map and channel field of a struct type that another struct holds, plus slices local to goroutine loops and the jitter buffer's linked list): E1 — a container that grows on a traffic path (reachable from a per-packet closure, a goroutine entry or a pacer/estimator entry point) also shrinks on a traffic path, or is of a bounded kind (channel with a configured capacity, map keyed by a ≤16-bit type, owner struct replaced as a whole, per-call temporary); " +
+			"E2 — a shrink site that only executes when a struct field is set counts only if something in the program sets that field; D5 — per-stream containers filled by Bind*Stream are emptied by the matching Unbind*Stream.",
+		notDecided:  "the numeric bound itself; whether an existing shrink runs often enough; GC reachability through third-party objects; growth hidden inside pion/rtp, pion/rtcp or x/time/rate",
+		sels:        []sel{s("E1"), s("E2"), s("D5")},
+		assumptions: []string{"go/ssa and go/types model the program faithfully", "traffic paths are the call-graph closure of per-packet closures, goroutine entries and the exported per-packet entry points of pacers/estimators/recorders"},
+	}
+}
